@@ -241,4 +241,9 @@ theorem C13_reparent_rule (rows : List Row) (bwdRoot : Int) (nodes : List N) (ne
           exact ⟨r, hp, rfl, this.1, this.2⟩
       · exact ⟨rfl, rfl, Or.inl rfl⟩
 
+/-- Non-vacuity: a launch call with one kernel below an operator: heights 2 / 1 / 0 and kernel totals. -/
+example : (T.node 0 false 0 20 [T.node 1 false 2 3 [T.node 2 true 6 4 []]]).height = 2 ∧
+    normalize (T.node 0 false 0 20 [T.node 1 false 2 3 [T.node 2 true 6 4 []]]).kinfo = (1, 4, 4, 6, 10) := by
+  decide
+
 end Hta.C13
